@@ -10,7 +10,16 @@ use serde::{Deserialize, Serialize};
 use std::collections::{BTreeSet, HashMap};
 
 pub fn check(tier: Tier, seed: u64, replay: (Option<&str>, Option<&str>)) -> Vec<PartReport> {
-    crate::run_parts!(tier, seed, replay, [LibPart, WirePart])
+    #[cfg(feature = "lib")]
+    {
+        crate::run_parts!(tier, seed, replay, [LibPart, WirePart])
+    }
+    #[cfg(not(feature = "lib"))]
+    {
+        let mut v = vec![crate::engine::lib_unavailable("C15", "lib")];
+        v.extend(crate::run_parts!(tier, seed, replay, [WirePart]));
+        v
+    }
 }
 
 #[derive(Clone, Debug, Serialize, Deserialize)]
@@ -352,8 +361,10 @@ fn case_labels(c: &Case, o: &mut Outcome) {
 
 // ------------------------------------------------------------------------------ lib part
 
+#[cfg(feature = "lib")]
 pub struct LibPart;
 
+#[cfg(feature = "lib")]
 impl Part for LibPart {
     type Case = Case;
     fn prop(&self) -> &'static str {
